@@ -217,8 +217,7 @@ Qed.
 Definition wf_coll (c : coll) : Prop :=
   NoDup (map ds_ident c) /\
   (forall d, In d c -> in_services d = true -> ds_grp d = 0) /\
-  (forall d, In d c -> in_services d = false -> ds_grp d <> 0) /\
-  (forall d dp, In d c -> In dp (reg_deps (ds_reg d)) -> d_group dp <> 0 -> d_name dp = 0).
+  (forall d, In d c -> in_services d = false -> ds_grp d <> 0).
 
 Lemma find_by_ident_self c d : NoDup (map ds_ident c) -> In d c -> find_by_ident c (ds_ident d) = Some d.
 Proof.
@@ -265,7 +264,7 @@ Section Built.
     destruct (find_by_ident c (t, KNone, g)) as [d0|] eqn:Hf.
     - (* no descriptor has a nil key together with a group *)
       exfalso. unfold find_by_ident in Hf. apply find_some in Hf. destruct Hf as [Hd0 He]. apply ident_eqb_eq in He.
-      destruct Hwf as (_ & H1 & _ & _). assert (in_services d0 = true) by (unfold in_services; inversion He as [[Ht Hk Hgr]]; rewrite Hk; reflexivity).
+      destruct Hwf as (_ & H1 & _). assert (in_services d0 = true) by (unfold in_services; inversion He as [[Ht Hk Hgr]]; rewrite Hk; reflexivity).
       specialize (H1 d0 Hd0 H). inversion He. congruence.
     - destruct g; [contradiction|]. apply in_map. exact Hm.
   Qed.
@@ -287,12 +286,12 @@ Section Built.
       apply Nat.eqb_eq in Ht.
       assert (Hk' : ds_key d' = name_key (d_name dp)).
       { destruct (ds_key d'), (name_key (d_name dp)); cbn in Hk; try discriminate; try reflexivity; apply Nat.eqb_eq in Hk; subst; reflexivity. }
-      destruct Hwf as (_ & H1 & _ & _). specialize (H1 d' Hd' Hs).
-      assert (Hid : ds_ident d' = dep_ident dp) by (unfold ds_ident, dep_ident; rewrite Ht, Hk', H1, Hg; reflexivity).
+      destruct Hwf as (_ & H1 & _). specialize (H1 d' Hd' Hs).
+      assert (Hid : ds_ident d' = dep_ident dp) by (unfold ds_ident, dep_ident, dep_key; rewrite Ht, Hk', H1, Hg; reflexivity).
       rewrite Hid. apply (rank_decreases (nat_graph c) L Htc); assumption.
     - (* group dependency: through the group's node *)
-      destruct Hwf as (_ & _ & _ & H4). specialize (H4 d dp Hd Hdp Hg).
-      assert (Hgn : dep_ident dp = (d_ty dp, KNone, d_group dp)) by (unfold dep_ident; rewrite H4; reflexivity).
+      assert (Hgn : dep_ident dp = (d_ty dp, KNone, d_group dp)).
+      { unfold dep_ident, dep_key. destruct (d_group dp =? 0) eqn:Eg; [apply Nat.eqb_eq in Eg; contradiction|reflexivity]. }
       rewrite Hgn in Hedge.
       assert (Hgin : In (d_ty dp, KNone, d_group dp) ns).
       { pose proof (dep_ident_in_nodes d dp Hd Hdp) as Hx. rewrite Hgn in Hx. exact Hx. }
